@@ -32,6 +32,7 @@ def step (_ : Unit) (toks : List String) (rhs : String) : Unit × Verdict :=
       match natList? res, natList? errs with
       | some res, some errs =>
         -- spec oracle, straight from the statement
+        let fin := if fin = "-" then "" else fin
         let unfinished := (fin.toList.zipIdx.filter (fun (c, _) => c ≠ '1')).map (·.2)
         if fin.length ≠ n ∨ ¬ unfinished.isEmpty then
           ((), .spec s!"All returned before tasks {unfinished} had finished")
